@@ -349,7 +349,7 @@ class ChannelState(utils.python.Object):
     .. attribute:: modes
 
         Dict of all the modes set in the channel, with they value, if any.
-        This excludes the following modes: ovhbeq
+        This excludes the following modes: ovhbeqI
 
         :type: Dict[str, Optional[str]]
     """
@@ -427,11 +427,11 @@ class ChannelState(utils.python.Object):
         self.voices.discard(user)
 
     def setMode(self, mode, value=None):
-        assert mode not in 'ovhbeq'
+        assert mode not in 'ovhbeqI'
         self.modes[mode] = value
 
     def unsetMode(self, mode):
-        assert mode not in 'ovhbeq'
+        assert mode not in 'ovhbeqI'
         if mode in self.modes:
             del self.modes[mode]
 
@@ -450,7 +450,7 @@ class ChannelState(utils.python.Object):
             return Set
         for (mode, value) in ircutils.separateModes(msg.args[1:]):
             (action, modeChar) = mode
-            if modeChar in 'ovhbeq': # We don't handle e or q yet.
+            if modeChar in 'ovhbeqI': # We don't handle e, q or I yet.
                 Set = getSet(modeChar)
                 if action == '-':
                     Set.discard(value)
